@@ -121,6 +121,9 @@ type interpreter struct {
 	everExplored bool
 	atomic       int
 	tracing      bool
+	atlases      map[*value]*atlasRec
+	cborTypes    map[string]*atlasRec
+	handles      map[*value]iface
 	preempts     int
 	idleWait     []*thread
 	stalled      []*thread
